@@ -273,7 +273,7 @@ func (m *m10) Next(t *rapid.T) op10 {
 		op.Who = m.toks[op.Tok].owner
 		op.Amount = m.drawAmount(t, m.c.Balance(e.Users[op.Who].Addr, m.toks[op.Tok].minUnit).BigInt()).String()
 		return op
-	case k < 94: // fee-token swap
+	case k < 91: // fee-token swap
 		op := op10{Kind: "feeswap", Who: rapid.IntRange(0, 5).Draw(t, "who")}
 		op.Tok = rapid.IntRange(0, len(m.toks)-1).Draw(t, "tok")
 		op.Tok2 = rapid.IntRange(0, len(m.toks)-2).Draw(t, "tok2")
@@ -295,14 +295,14 @@ func (m *m10) Next(t *rapid.T) op10 {
 		op.Amount = m.drawAmount(t, m.c.Balance(e.Users[op.Who].Addr, m.toks[op.Tok].minUnit).BigInt()).String()
 		m.feeSeen = append(m.feeSeen, op)
 		return op
-	case k >= 97 || k >= 94 && m.nReimp == 0 && len(dep) > 0: // restart of the token module from its exported genesis
+	case k >= 96: // restart of the token module from its exported genesis
 		if m.avoidIBC && m.toks[c10IBCTok].registered {
 			m.cls["skipped:C10/reimport-import"] = true
-			return op10{Kind: "enable", Who: -1, Enable: true}
+			return op10{Kind: "enable", Who: -1, Enable: m.enabled}
 		}
 		return op10{Kind: "reimport", Who: -1}
 	default:
-		op := op10{Kind: "enable", Who: -1, Enable: rapid.IntRange(0, 2).Draw(t, "on") != 0}
+		op := op10{Kind: "enable", Who: -1, Enable: rapid.IntRange(0, 4).Draw(t, "on") >= 2}
 		return op
 	}
 }
@@ -693,6 +693,10 @@ func (m *m10) Apply(op op10) error {
 	case chain.Panicked:
 		return pbt.Failf("C10/panic", "%s panicked: %v", op.Kind, res.Panic)
 	case chain.OK:
+		if op.Kind == "tonative" && amount.Sign() > 0 && got.Empty() && tk.contract != nil {
+			return pbt.Failf("C10/tonative-event-ignored", "the contract of %s burned %s from holder %d and the hook returned success, but no native coin was minted "+
+				"(restored by genesis import: %v): %+v", tk.symbol, amount, op.Who, tk.restored, op)
+		}
 		if reject != "" {
 			return pbt.Failf("C10/"+op.Kind+"-accepted", "%s succeeded although %s: %+v; balances moved {%s}", op.Kind, reject, op, got)
 		}
